@@ -176,7 +176,7 @@ c.lemma("entry", "ed_mul_mod", "s", "spec.ed_view(self)")
 c.lemma("entry", "ed_prime_order", "s % L", "spec.ed_view(self)")
 c.lemma("entry", "ed_insub_mul", "s % L", "spec.ed_view(self)")
 c.lemma("entry", "ed_mul_zero", "spec.ed_view(self)")
-c.ensures("spec.ed_view(result) == spec.ed_mul(s, spec.ed_view(self))", name="multiple", tags="C13 C01")
+c.ensures("spec.ed_view(result) == spec.ed_mul(s, spec.ed_view(self))", name="multiple", tags="C13 C01 C12")
 c.ensures("(result is Zero) == (s % L == 0)", name="zero-iff-multiple-of-L", tags="C13")
 
 c = REG.contract(ELT + ".negate")
@@ -184,7 +184,7 @@ c.params(self="obj:" + ELT).returns("obj:" + ELT).pure()
 c.lemma("entry", "ed_neg_mul", "spec.ed_view(self)")
 c.lemma("entry", "ed_prime_order", "L - 1", "spec.ed_view(self)")
 c.lemma("entry", "ed_insub_mul", "L - 1", "spec.ed_view(self)")
-c.ensures("spec.ed_view(result) == spec.ed_neg(spec.ed_view(self))", name="additive-inverse", tags="C13")
+c.ensures("spec.ed_view(result) == spec.ed_neg(spec.ed_view(self))", name="additive-inverse", tags="C13 C12")
 
 c = REG.contract(ELT + ".subtract")
 c.params(self="obj:" + ELT, other=SUB).returns("obj:%s|%s|%s" % (ELT, ZERO, EOUG)).pure()
